@@ -52,28 +52,32 @@ theorem prepR_lt (r : Nat) (it : TraceItem) : (prepR r it).2 < 65536 := by
 
 /-! ### the plain fragment -/
 
-/-- events outside the fragment: pitch envelope on; notes outside the MDSDRV range (the writer
-refuses them; in drum mode the same range is the oracle's domain for routine numbers) -/
+/-- events outside the fragment: notes outside the MDSDRV range (the writer refuses them; in drum
+mode the same range is the oracle's domain for routine numbers).  (Until round 5 also: pitch
+envelope on.) -/
 def SimpleEv (e : Event) : Prop :=
-  (e.type = ev_NOTE → 0 ≤ e.param ∧ e.param < 94) ∧ (e.type = ev_PITCH_ENVELOPE → e.param = 0)
+  e.type = ev_NOTE → 0 ≤ e.param ∧ e.param < 94
 
 /-- what a writer's hook looks up outside its own state: the subroutine map, the macro-track map,
-the platform commands of the song -/
+the platform commands of the song, the size of `used_data_map` (every envelope index handed out
+so far is below it) -/
 structure WCtx where
   sub : List (Int × Nat)
   mac : List (Int × Nat)
   plat : List (Int × Option (List MEv))
+  used : Nat
 
 /-- the maps only grow -/
-def WCtx.le (a b : WCtx) : Prop := (∀ p ∈ a.sub, p ∈ b.sub) ∧ (∀ p ∈ a.mac, p ∈ b.mac) ∧ a.plat = b.plat
+def WCtx.le (a b : WCtx) : Prop :=
+  (∀ p ∈ a.sub, p ∈ b.sub) ∧ (∀ p ∈ a.mac, p ∈ b.mac) ∧ a.plat = b.plat ∧ a.used ≤ b.used
 
-theorem WCtx.le_refl (a : WCtx) : a.le a := ⟨fun _ h => h, fun _ h => h, rfl⟩
+theorem WCtx.le_refl (a : WCtx) : a.le a := ⟨fun _ h => h, fun _ h => h, rfl, Nat.le_refl _⟩
 theorem WCtx.le_trans {a b c : WCtx} (h1 : a.le b) (h2 : b.le c) : a.le c :=
-  ⟨fun p h => h2.1 p (h1.1 p h), fun p h => h2.2.1 p (h1.2.1 p h), h1.2.2.trans h2.2.2⟩
+  ⟨fun p h => h2.1 p (h1.1 p h), fun p h => h2.2.1 p (h1.2.1 p h), h1.2.2.1.trans h2.2.2.1, Nat.le_trans h1.2.2.2 h2.2.2.2⟩
 
-def ctxOf (d : DataInfo) (c : Conv) : WCtx := ⟨c.subMap, c.macroMap, d.platform⟩
+def ctxOf (d : DataInfo) (c : Conv) : WCtx := ⟨c.subMap, c.macroMap, d.platform, c.usedData.length⟩
 
-theorem ctxOf_le (d : DataInfo) {c c' : Conv} (h : SubMono c c') : (ctxOf d c).le (ctxOf d c') := ⟨h.1, h.2, rfl⟩
+theorem ctxOf_le (d : DataInfo) {c c' : Conv} (h : SubMono c c') : (ctxOf d c).le (ctxOf d c') := ⟨h.1, h.2.1, rfl, h.2.2⟩
 
 /-- the writer's drum-mode state after an event -/
 def dAfter (d : Bool) (it : TraceItem) : Bool :=
@@ -133,6 +137,10 @@ inductive Body (x : WCtx) (d : Bool) (it : TraceItem) : List MEv → Prop
   /-- a macro track (pan envelope on): its index + 1 -/
   | mtab {k : Nat} : it.ev.type = ev_PAN_ENVELOPE → it.ev.param ≠ 0 → (it.ev.param, k) ∈ x.mac →
       Body x d it [⟨mds_MTAB, u16 (wrap16 ((k : Int) + 1))⟩]
+  /-- a pitch envelope switched on: its index in `used_data_map` (an index handed out, hence below the
+  map's size) + 1 -/
+  | peg {i : Nat} : it.ev.type = ev_PITCH_ENVELOPE → it.ev.param ≠ 0 → i < x.used →
+      Body x d it [⟨mds_PEG, u16 (wrap16 ((i : Int) + 1))⟩]
 
 theorem Body.mono {x x' : WCtx} (hx : x.le x') {d : Bool} {it : TraceItem} {ms : List MEv}
     (h : Body x d it ms) : Body x' d it ms := by
@@ -141,8 +149,9 @@ theorem Body.mono {x x' : WCtx} (hx : x.le x') {d : Bool} {it : TraceItem} {ms :
   | jump h1 h2 => exact .jump h1 (hx.1 _ h2)
   | ins h1 h2 => exact .ins h1 h2
   | dnote h1 h2 h3 h4 h5 => exact .dnote h1 h2 (hx.1 _ h3) h4 h5
-  | plat h1 h2 => exact .plat h1 (by rw [← hx.2.2]; exact h2)
+  | plat h1 h2 => exact .plat h1 (by rw [← hx.2.2.1]; exact h2)
   | mtab h1 h2 h3 => exact .mtab h1 h2 (hx.2.1 _ h3)
+  | peg h1 h2 h3 => exact .peg h1 h2 (Nat.lt_of_lt_of_le h3 hx.2.2.2)
 
 /-- the writer's event list for a list of shown hook calls: drum-mode state `d`, pending rest `r`,
 loop point seen `g` -/
@@ -297,8 +306,8 @@ macro "skip_some" : tactic => `(tactic| (rw [if_pos t] at h; cases h))
 /-- outside `detBody`: calls, instruments, notes in drum mode, platform commands, macro tracks -/
 theorem detBody_none {d : Bool} {it : TraceItem} (hs : SimpleEv it.ev) (h : detBody d it = none) :
     it.ev.type = ev_JUMP ∨ it.ev.type = ev_INS ∨ (it.ev.type = ev_NOTE ∧ d = true) ∨ it.ev.type = ev_PLATFORM ∨
-      (it.ev.type = ev_PAN_ENVELOPE ∧ it.ev.param ≠ 0) := by
-  obtain ⟨s4, s5⟩ := hs
+      (it.ev.type = ev_PAN_ENVELOPE ∧ it.ev.param ≠ 0) ∨ (it.ev.type = ev_PITCH_ENVELOPE ∧ it.ev.param ≠ 0) := by
+  have s4 := hs
   unfold detBody at h
   simp only at h
   by_cases t : it.ev.type = ev_TIE
@@ -362,10 +371,13 @@ theorem detBody_none {d : Bool} {it : TraceItem} (hs : SimpleEv it.ev) (h : detB
   · rw [if_pos t] at h
     by_cases hp : it.ev.param = 0
     · rw [if_pos hp] at h; cases h
-    · exact .inr (.inr (.inr (.inr ⟨t, hp⟩)))
+    · exact .inr (.inr (.inr (.inr (.inl ⟨t, hp⟩))))
   rw [if_neg t] at h; clear t
   by_cases t : it.ev.type = ev_PITCH_ENVELOPE
-  · rw [if_pos t, if_pos (s5 t)] at h; cases h
+  · rw [if_pos t] at h
+    by_cases hp : it.ev.param = 0
+    · rw [if_pos hp] at h; cases h
+    · exact .inr (.inr (.inr (.inr (.inr ⟨t, hp⟩))))
   rw [if_neg t] at h; clear t
   by_cases t : it.ev.type = ev_PORTAMENTO
   · skip_some
@@ -515,8 +527,8 @@ theorem hookVis_simple {song : Song} {d : DataInfo} (hpc : PlatformClean d) {n :
     obtain ⟨rfl, rfl⟩ := h
     exact ⟨ms, .det hb, rfl⟩
   | none =>
-    rcases detBody_none hs hb with t | t | ⟨t, hd⟩ | t | ⟨t, hp⟩
-    rotate_right 2
+    rcases detBody_none hs hb with t | t | ⟨t, hd⟩ | t | ⟨t, hp⟩ | ⟨t, hp⟩
+    rotate_right 3
     · -- a platform command
       rw [hookVis_plat t] at h
       cases hl : d.platform.lookup it.ev.param with
@@ -543,6 +555,17 @@ theorem hookVis_simple {song : Song} {d : DataInfo} (hpc : PlatformClean d) {n :
         obtain ⟨rfl, rfl⟩ := h
         obtain ⟨k, rfl, _, hmem, _, _⟩ := (writerInv hpc n).mac c _ c2 id (w.out :: L) P hinv hg
         exact ⟨_, .mtab t hp hmem, push_eq w it mds_MTAB _ (by decide) (by rw [t]; decide) (by rw [t]; decide)⟩
+    · -- a pitch envelope: `get_envelope` hands out an index below the (new) size of `used_data_map`
+      rw [hookVis_peg t hp] at h
+      cases hl : d.pitchMap.lookup it.ev.param with
+      | none => rw [hl] at h; cases h
+      | some idx =>
+        rw [hl] at h
+        simp only [Except.ok.injEq, Prod.mk.injEq] at h
+        obtain ⟨rfl, rfl⟩ := h
+        have hlt := (getEnvelope_spec c (if d.pitchExtend.contains it.ev.param then 0x10000 + idx else idx) hinv.maps).2.2.2.2.2.1
+        exact ⟨_, .peg (i := (getEnvelope c (if d.pitchExtend.contains it.ev.param then 0x10000 + idx else idx)).2) t hp hlt,
+          push_eq w it mds_PEG _ (by decide) (by rw [t]; decide) (by rw [t]; decide)⟩
     · rw [hookVis_jump t] at h
       cases hg : getSubroutine song d n c it.ev.param false w.drumEnabled with
       | error x => rw [hg] at h; cases h
